@@ -210,12 +210,39 @@ def next (s : Sched) (z : Zone) (tn : Int) : Result :=
   let t := roundUp tn
   nextFrom s z (year z t + 5) outerFuel t false
 
+/-! ### specification: what "matches on the wall clock" means (cron/doc.go)
+
+Independent of the search loops: a whole second matches when the second, minute, hour and month
+read on the zone's wall clock are in their sets and the day rule holds — if either day field is
+unrestricted (star) both day-of-month and day-of-week must be in their sets, if both are
+restricted either suffices. -/
+
+def dayRule (s : Sched) (z : Zone) (u : Int) : Prop :=
+  if star s.dom = true ∨ star s.dow = true
+  then has s.dom (day z u) = true ∧ has s.dow (wday z u) = true
+  else has s.dom (day z u) = true ∨ has s.dow (wday z u) = true
+
+instance (s : Sched) (z : Zone) (u : Int) : Decidable (dayRule s z u) := by
+  unfold dayRule; exact inferInstance
+
+/-- The whole second `u` (Unix seconds) matches schedule `s` on the wall clock of `z`. -/
+def Matches (s : Sched) (z : Zone) (u : Int) : Prop :=
+  has s.second (second z u) = true ∧ has s.minute (minute z u) = true ∧
+  has s.hour (hour z u) = true ∧ has s.month (month z u) = true ∧ dayRule s z u
+
+instance (s : Sched) (z : Zone) (u : Int) : Decidable (Matches s z u) := by
+  unfold Matches; exact inferInstance
+
+/-- The nanosecond instant `n` is a whole second that matches. -/
+def MatchesN (s : Sched) (z : Zone) (n : Int) : Prop :=
+  n % 1000000000 = 0 ∧ Matches s z (n / 1000000000)
+
 /-! ### `@every` -/
 
-/-- `Every(d).Delay` (nanoseconds). -/
+/-- `Every(d).Delay` (nanoseconds).  Go's `%` truncates, but the operand is positive here. -/
 def everyDelay (d : Int) : Int :=
   let d := if d < 1000000000 then 1000000000 else d
-  d - Int.tmod d 1000000000
+  d - d % 1000000000
 
 /-- `ConstantDelaySchedule{delay}.Next(t)` (all in nanoseconds). -/
 def everyNext (delay tn : Int) : Int := tn + (delay - tn % 1000000000)
